@@ -257,6 +257,50 @@ def run(ctx: Context, rep) -> None:
         "C10.couple)")
     c01.check_cast(ctx, rep, "C18.cast")
     c01.check_tfrec(ctx, rep, "C18.tables")
+    # the FlatBuffers builder is driven through its API only: its internal
+    # fields (head, vtables, current_vtable, nested, ...) are consistent with
+    # each other only as the library leaves them; rewinding one of them after
+    # a rejected write leaves the others pointing at overwritten bytes
+    rep.rule(
+        "C18.fb-builder",
+        "no attribute of a flatbuffers Builder object is assigned or deleted "
+        "by sedpack code (method calls only)")
+    fbw_mod = ctx.repo.module("sedpack.io.shard.shard_writer_flatbuffer")
+    n_fb = 0
+    for fn in fbw_mod.functions.values():
+        for n in fn.body_nodes():
+            tgts = []
+            if isinstance(n, ast.Assign):
+                tgts = n.targets
+            elif isinstance(n, (ast.AugAssign, ast.AnnAssign)):
+                tgts = [n.target]
+            elif isinstance(n, ast.Delete):
+                tgts = n.targets
+            for t in tgts:
+                if isinstance(t, ast.Attribute) and "builder" in (
+                        dotted(t.value) or "").lower():
+                    # frozen exceptions: the bulk byte-vector write copies
+                    # flatbuffers.Builder.CreateNumpyVector (moves head by the
+                    # payload length between StartVector and EndVector, sets
+                    # the element count EndVector writes)
+                    allowed = (fn.qualname.endswith(
+                        "save_numpy_vector_as_bytearray") and
+                               t.attr in ("head", "vectorNumElems") and
+                               isinstance(n, ast.Assign))
+                    rep.ob("C18.fb-builder", allowed, loc=fn.loc(n),
+                           where=fn.qualname, construct=short(n, 70),
+                           message="builder internals must not be modified "
+                           "(table exception: the CreateNumpyVector idiom "
+                           "inside save_numpy_vector_as_bytearray)")
+        n_fb += sum(1 for c in fn.calls() if "builder" in ast.unparse(
+            c.func).lower() or any("builder" in ast.unparse(a).lower()
+                                   for a in c.args))
+    rep.ob("C18.fb-builder", n_fb >= 5, loc=f"{_FBW}:1" if "_FBW" in globals()
+           else "src/sedpack/io/shard/shard_writer_flatbuffer.py:1",
+           where="shard_writer_flatbuffer",
+           construct=f"{n_fb} builder API call(s), no field assignment",
+           message="the builder is used through its API")
+
 
 
 def check_counters(ctx: Context, rep, rule: str) -> None:
